@@ -42,6 +42,7 @@ def main(ids):
             txt = open(ct).read()
             import re
             txt = re.sub(r'path\s*=\s*"[^"]*ciphercore-(base|utils)"', lambda m: 'path = "%s/ciphercore-%s"' % (WT, m.group(1)), txt)
+            txt = re.sub(r'/tmp/mut/[A-Za-z0-9]+/', WT + '/', txt)
             open(ct, "w").write(txt)
             demo_cmd, demo_cwd = ["cargo", "run", "--offline", "-j", "8"], os.path.join(WT, "deliver", "demo")
             if not os.path.exists(os.path.join(demo, "src", "main.rs")):
